@@ -30,6 +30,9 @@ func init() {
 				if o.Rule == "RW.RANGEDISPATCH" { // the supported kinds are C04's
 					return strings.Contains(o.Construct, "pointer") || strings.Contains(o.Construct, "func") || strings.Contains(o.Construct, "type parameter") || strings.Contains(o.Construct, "typeparam")
 				}
+				if o.Rule == "RW.DISPATCH" && strings.HasSuffix(o.Construct, "(yield-free)") {
+					return false // a yield-free statement that is rejected is over-rejection: C11's
+				}
 				return o.Rule != "RW.NOLOSS" && o.Rule != "RW.BLOCKSTATE" // loss of a part of a supported statement is C01's, compiler panics are C11's
 			})
 			c.min("RW.DISPATCH", 21)
